@@ -4,6 +4,7 @@ import (
 	"crypto/sha256"
 	"encoding/hex"
 	"fmt"
+	"net"
 	"net/url"
 	"regexp"
 	"strings"
@@ -44,6 +45,10 @@ func Normalize(zone string) (string, error) {
 	}
 	if strings.Contains(trimmed, "*") {
 		return "", fmt.Errorf("acme: wildcard zone is not supported")
+	}
+	if net.ParseIP(trimmed) != nil {
+		// public IP addresses qualify for a public certificate but are not hostnames
+		return "", fmt.Errorf("acme: ip address is not supported")
 	}
 	uni, err := idna.ToASCII(trimmed)
 	if err != nil {
